@@ -588,6 +588,24 @@ def r06_17(chk):
     chk.floor("R06.17", 1, "MinimalPhylipParser")
 
 
+def r06_18(chk):
+    chk.rule("R06.18", "plain and compressed files answer to the same mode: for gzip / bz2 openers a mode without 'b' or 't' means BINARY, for the built-in open it means text -- so in open_ the mode handed to the chosen opener together with an encoding has been made explicit (a 't' is added when the mode names neither); otherwise open_('x.fasta.gz', 'r') raises ('encoding' not supported in binary mode) where open_('x.fasta', 'r') reads text")
+    from ..cfg import build
+
+    m = chk.repo.module("util/io.py")
+    fn = m.func("open_")
+    g = build(fn)
+    finals = g.nodes_containing(lambda x: isinstance(x, ast.Call) and isinstance(x.func, ast.Name) and x.func.id == "op" and len(x.args) >= 2 and any(kw.arg == "encoding" for kw in x.keywords))
+    if not finals:
+        raise AnalysisError("open_: final opener call op(filename, mode, encoding=...) not found")
+    fixes = [nd for nd in g.nodes if isinstance(getattr(nd, "ast", None), (ast.Assign, ast.AugAssign)) and norm(nd.ast.targets[0] if isinstance(nd.ast, ast.Assign) else nd.ast.target) == "mode" and any(isinstance(c_, ast.Constant) and isinstance(c_.value, str) and "t" in c_.value for c_ in ast.walk(nd.ast.value)) and not (isinstance(nd.ast.value, ast.BoolOp))]
+    guards = [i for i in walk_no_nested(fn) if isinstance(i, ast.If) and "mode" in norm(i.test) and ("'b'" in norm(i.test) or "'t'" in norm(i.test)) and any(isinstance(st, (ast.Assign, ast.AugAssign)) and "mode" in norm(st.targets[0] if isinstance(st, ast.Assign) else st.target) for st in i.body)]
+    okf = bool(guards)
+    for f in finals:
+        chk.decide(okf, "R06.18", key(m, "open_", "mode made explicit before the opener"), m.loc(f.ast), "a 't' is added to a mode that names neither text nor binary", "`op(filename, mode, encoding=...)` receives the caller's mode as is: 'r' is text for open() but binary for gzip.open / bz2.open, so open_('x.fasta.gz', 'r') raises ValueError while the same call on the plain file reads text")
+    chk.floor("R06.18", 1, "open_")
+
+
 def r06_9(chk):
     chk.rule("R06.9", "GenBank bytes parser: records are split on the line-anchored terminator b'\\n//'; because that separator begins with the newline of the previous line, every later piece starts with a newline -- the piece is left-trimmed before its first line (LOCUS) is taken, and the guard that skips the piece after the last terminator also covers the empty piece (`not piece`, not just piece.isspace())")
     from ..cfg import build
@@ -676,6 +694,7 @@ def r06_11(chk):
 
 
 def run(chk):
+    r06_18(chk)
     r06_17(chk)
     r06_16(chk)
     r06_15(chk)
